@@ -93,11 +93,20 @@ def _impl(sc):
                     warnings.simplefilter('ignore')
                     try:
                         w = wn.Wordnet(lexicon=op['lexicon'], lang=op['lang'])
-                        r = [f'{l.id}:{l.version}' for l in w.lexicons()]
+                        got = w.lexicons()
+                        r = [f'{l.id}:{l.version}' for l in got]
+                        # the answer is the caller's own list: whatever the caller does to it, the selection stays
+                        exp_ = w.expanded_lexicons()
+                        got.extend(exp_)
+                        got.reverse()
+                        if got:
+                            got.pop()
+                        exp_.clear()
+                        again = [f'{l.id}:{l.version}' for l in w.lexicons()]
                     except wn.Error:
-                        r = 'error'
+                        r = again = 'error'
                     r2 = [f'{l.id}:{l.version}' for l in wn.lexicons(lexicon=op['lexicon'], lang=op['lang'])]
-                outs.append({'wordnet': r, 'lexicons': r2})
+                outs.append({'wordnet': r, 'lexicons': r2, '_again': again})
         shutil.rmtree(d, ignore_errors=True)
         return outs
     except Exception as e:
@@ -152,6 +161,9 @@ def judge(ctx, sc, im, mo):
                     ctx.fail('selection=documented-specifier-table', sc, dict(where, got=sorted(set(got)), expected=exp_specs))
             if sorted(set(o['lexicons'])) != exp_specs:
                 ctx.fail('wn.lexicons()=documented-selection-or-empty-list', sc, dict(where, got=o['lexicons'], expected=exp_specs))
+            if o.get('_again', got) != got:
+                ctx.fail('the-selection-of-a-Wordnet-does-not-change-when-the-caller-modifies-a-returned-list', sc,
+                         dict(where, first=got, after=o.get('_again')))
         if mo is not None:
             m = mo[k]
             if op['k'] == 'lexicons':
